@@ -51,6 +51,8 @@ pub trait SnmpAuth {
     fn placeholder(&self) -> &'static [u8];
     // Sign data in buffer
     fn sign(&self, data: &mut [u8], offset: usize) -> SnmpResult<()>;
+    // Check the signature of `size` octets placed at `offset` of data
+    fn verify(&self, data: &[u8], offset: usize, size: usize) -> bool;
 }
 
 // - - X X    X X X X
